@@ -200,7 +200,8 @@ def make_layout(rng, nvol=None, home_mode=None, xdg=None, uid=None, trash_states
         L['trash'][v] = {'top': ts, 'alt': as_}
         t = v + '/.Trash'
         if ts == 'sticky':
-            steps.append(['d', t, 0o1777])
+            # (a .Trash made inside a setgid top directory inherits the setgid bit: 3777 is as good as 1777)
+            steps.append(['d', t, rng.choice([0o1777, 0o1777, 0o1777, 0o3777, 0o5777, 0o1755, 0o1700])])
         elif ts == 'nonsticky':
             steps.append(['d', t, 0o777])
         elif ts == 'nonsticky_sgid':
